@@ -15,7 +15,7 @@ CHECKS = {
          "hc's Encrypt output must equal the reference framing byte for byte (pins frame size, length encoding, nonce layout, key labels, AAD, counter continuity) for all payload lengths 0..1100 + boundaries (quick) / 0..4097 exhaustively + sampled to 64 KiB (thorough), 8 reader modes, sequences of messages; long sessions across the 2^8 / 2^16 (thorough 2^17, 2^20) frame-counter boundaries; full-duplex use of one session; queued use (several results sealed / opened before any is read out, caller buffers reused).",
          "trusted base: x/crypto chacha20poly1305, refctl framing/HKDF (self-tested)", "DESIGN.md §5 C06"),
  "C07": ("exploration", "runtime monitoring: online trace checker over a scripted net.Conn (segmentation, idle periods, buffer sizes) + delay-injected handovers on a real transport",
-         "Harness A: thousands of scripted segmentations incl. every single cut offset of base streams, idle periods and caller buffer sizes, with an online prefix / no-EOF / promptness / bounded-completion oracle. Harness B: pair-verify handovers under natural, late-abort and late-background-read schedules (delay hooks), three back-to-back requests each, then a repeated pair-verify on the encrypted connection under every schedule; unanswered decided by bounded progress on other connections; empty read buffers, reader reuses its buffer; floors per hook point.",
+         "Harness A: thousands of scripted segmentations incl. every single cut offset of base streams, idle periods and caller buffer sizes, with an online prefix / no-EOF / promptness / bounded-completion oracle. Harness A2: the session keys are installed inside the Read call that hands out the first ciphertext (a read pending across the handover) for caller buffers 1..9000 bytes and up to 8 coalesced frames. Harness B: pair-verify handovers under natural, late-abort and late-background-read schedules (delay hooks), three back-to-back requests each, then a repeated pair-verify on the encrypted connection under every schedule; unanswered decided by bounded progress on other connections; empty read buffers, reader reuses its buffer; floors per hook point.",
          "trusted base: refctl framing; hooks only widen schedules (4 points in hap/connection.go)", "DESIGN.md §5 C07"),
  "C08": ("exploration", "runtime monitoring: offline stream-order checker with unique-id payloads over recorded concurrent Write histories + Go race detector on the same workload",
          "2..16 goroutines write unique-id payloads of 1..3 frames to one hap.Connection over TCP, a scripted and a slow socket, with PRNG delays between sealing and the socket write; the captured stream must parse into frames authenticating at consecutive counters, payloads complete, exactly once, respecting real-time order; race reports filtered to the write path count as violations; floors on overlapping Write calls and distinct arrival orders.",
@@ -53,7 +53,7 @@ CHECKS = {
  "C11": ("exploration", "runtime monitoring: permission invariants over every catalog constructor and all 8 permission subsets x formats, in-process update API and HTTP PUT path, EVENT fences",
          "No pw => value unchanged and no callback for ~57 hostile values; no pr => no value stored or revealed in JSON, GET, /accessories, EVENT; no ev => subscription answered with a status and a fenced local change delivers no EVENT (ev spelled true, 1, 1.0, 'true', '1', [true]: the odd spellings may be ignored or refused, never followed by an EVENT); positive controls for ev/pw/pr characteristics.",
          "trusted base: refctl; permissions read literally from Perms, not through hc's helpers", "DESIGN.md §5 C11"),
- "C12": ("exploration", "runtime monitoring: type/range invariant checked after every update for hostile JSON-like value sequences over every catalog constructor and synthetic formats, in-process and through PUT",
+ "C12": ("exploration", "runtime monitoring: type/range invariant checked after every update for hostile JSON-like value sequences over every catalog constructor and synthetic formats (every format x no / one-sided / two-sided bounds x steps that do not divide the range), in-process and through PUT",
          "88 hostile values (numbers of all magnitudes and signs, numeric and non-finite strings, bools, null, arrays, objects, repeated composites, Go-native ints/uints/float32) x local / remote / get-callback updates, pairs and random sequences; oracle after every update: Go type of the stored value matches the format, integer formats in range, within declared min/max, typed getter returns, attribute database encodes.",
          "panics are attributed by stack frames inside package characteristic; trusted base: refctl for the HTTP path", "DESIGN.md §5 C12"),
  "C20": ("exploration", "runtime monitoring: restart histories on one storage against a model (own structure fingerprint), exhaustive setup-code enumeration, independent setup-URI decoder",
@@ -63,7 +63,7 @@ CHECKS = {
          "3..5 verified controllers, 2..4 accessories, histories of 40 operations (subscribe, unsubscribe, local set, remote write changing / same value, combined PUT, value+ev in one entry for a read-only characteristic, idle (a change, then 90 s of virtual idle time, then every connection fenced), close FIN/RST, reconnect, join via /pairings); after every operation every live connection is fenced and the EVENTs received are compared with the model; closed connections checked through hc's debug log after bounded progress; concurrent writers on distinct characteristics with connection churn checked offline for exactly-once and under -race (reports filtered to notifyListener / session / context).",
          "trusted base: refctl; hc writes EVENTs synchronously inside the changing call (the fence argument of DESIGN §3.4)", "DESIGN.md §5 C10"),
  "C13": ("exploration", "runtime monitoring: hostile-message fuzzing per protocol state against real transports in child processes; oracle = captured net/http panic log + well-formed (error) response + honest continuation on the same and on a new connection",
-         "Per case an honest prefix reaches one of six protocol states, then one hostile message of 63 classes (random bytes, structural TLV mutations of the correct next message, short / wrong-tag encrypted data, unknown steps / methods, hostile JSON, HTTP oddities, remote-address reuse) is sent; no panic line attributable to the request, a well-formed response that is an error when the message cannot be processed, and the state-appropriate honest handshake still succeeds on the same connection (at most one rejected start) and on a new one; 'no answer' by bounded progress; a dying child identifies its last logged input. Stored oddities: pairings with keys of 0..1000 bytes stored through /pairings, then pair-verify naming each. Idle periods: connections in five protocol states (one just notified) are used again after 90 s of virtual idle time (every deadline armed on an accepted connection moved into the past through the WrapConn hook).",
+         "Per case an honest prefix reaches one of six protocol states, then one hostile message of 63 classes (random bytes, structural TLV mutations of the correct next message, short / wrong-tag encrypted data, unknown steps / methods, hostile JSON, HTTP oddities, remote-address reuse) is sent; no panic line attributable to the request, a well-formed response that is an error when the message cannot be processed, and the state-appropriate honest handshake still succeeds on the same connection (at most one rejected start) and on a new one; 'no answer' by bounded progress; a dying child identifies its last logged input. Stored oddities: pairings with keys of 0..1000 bytes stored through /pairings, then pair-verify naming each. Class frame-size: a valid request sealed as one frame of 1025..65535 bytes (served or closed, never a panic). Idle periods: connections in five protocol states (one just notified) are used again after 90 s of virtual idle time (every deadline armed on an accepted connection moved into the past through the WrapConn hook).",
          "trusted base: refctl; net/http's own 400/431 answers count as well-formed; 405 demanded only on the three endpoints that dispatch on the method", "DESIGN.md §5 C13 and §12.6"),
 }
 NOT_YET = {
